@@ -155,6 +155,18 @@ def cases(tier, seed):
             yield {"id": "c19-p%d" % n, "family": "c19.project", "mode": "project", "files": files, "faulty": faulty, "tags": ["project:" + name]}
 
 
+    # ... and with a fault that surfaces while the shared context is built (before any file is checked on its own)
+    ctx_faults = {"argument-without-type": "class CtxBad(a)\n", "duplicate-parent": "class CtxP\nclass CtxDup: CtxP, CtxP\n", "import-alias-mismatch": "import os as o1, o2\n"}
+    for name, files, ok, faulty in c13.projects("quick"):
+        if ok and len(files) >= 2 and "clash" not in name and ":long" not in name and ":d2" not in name:
+            for fp in sorted(files):
+                for cname, text in ctx_faults.items():
+                    n += 1
+                    f2 = dict(files)
+                    f2[fp] = files[fp] + text
+                    yield {"id": "c19-p%d" % n, "family": "c19.project-context-fault", "mode": "project", "files": f2, "faulty": [fp], "tags": ["project:" + name, "ctx-fault:" + cname]}
+
+
 def evaluate(case, drv):
     res = {"fail": [], "nontrivial": False, "stats": {}, "key": case["id"], "evals": 0}
     fam = case["family"]
